@@ -13,22 +13,38 @@ def _g_step(n, bits, rev, kind, u, v, w, x):
     return ok and _graph_views_ok(G, n2, E)
 
 
-def _g_hist(n, bits, ops):
-    G, E = _mk_graph(n, bits, False)
-    for (k, u, v) in ops:
-        ok, n, E = _graph_apply(G, n, E, k, u, v, 1, 2)
-        if not ok or not _graph_views_ok(G, n, E):
+def _g_hist(n0, bits, ops):
+    # three observation schedules: every view read before the first operation and after each one; only after each
+    # operation; only at the end (what a view reports must not depend on when views were read before)
+    for schedule in (0, 1, 2):
+        n = n0
+        G, E = _mk_graph(n, bits, False)
+        if schedule == 0 and not _graph_views_ok(G, n, E):
+            return False
+        for (k, u, v) in ops:
+            ok, n, E = _graph_apply(G, n, E, k, u, v, 1, 2)
+            if not ok:
+                return False
+            if schedule != 2 and not _graph_views_ok(G, n, E):
+                return False
+        if not _graph_views_ok(G, n, E):
             return False
     return True
 
 
-def _g_grow_add(n, bits, g, u, v):
-    G, E = _mk_graph(n, bits, False)
-    ok, n, E = _graph_apply(G, n, E, 2, n + g, 0, 1, 2)
-    if not ok or not _graph_views_ok(G, n, E):
-        return False
-    ok, n, E = _graph_apply(G, n, E, 0, u, v, 1, 2)
-    return ok and _graph_views_ok(G, n, E)
+def _g_grow_add(n0, bits, g, u, v):
+    for schedule in (0, 1, 2):
+        n = n0
+        G, E = _mk_graph(n, bits, False)
+        if schedule == 0 and not _graph_views_ok(G, n, E):
+            return False
+        ok, n, E = _graph_apply(G, n, E, 2, n + g, 0, 1, 2)
+        if not ok or (schedule != 2 and not _graph_views_ok(G, n, E)):
+            return False
+        ok, n, E = _graph_apply(G, n, E, 0, u, v, 1, 2)
+        if not ok or not _graph_views_ok(G, n, E):
+            return False
+    return True
 
 
 def _d_step(n, bits, kind, u, v, w, x):
